@@ -44,6 +44,9 @@ for b2b in (False, True):
     add("crossbar", 3, 3, False, "thorough", b2b)
 
 
+for kind, nm, ns, register, tier in (("crossbar", 2, 2, False, "quick"), ("crossbar", 2, 1, True, "quick"), ("shared", 2, 2, False, "quick"),
+                                     ("arbiter", 2, 1, False, "quick"), ("decoder", 1, 2, False, "quick"), ("crossbar", 2, 2, True, "thorough")):
+    VARIANTS[f"{kind}({nm}x{ns},register={register})+stb_pauses"] = (tier, dict(kind=kind, nm=nm, ns=ns, register=register, back_to_back=True, timeout=None, pauses=True))
 VARIANTS["shared(2x2,register=False,timeout=2)"] = ("quick", dict(kind="shared", nm=2, ns=2, register=False, back_to_back=False, timeout=2, maxlat=3))
 VARIANTS["shared(2x1,register=False,timeout=3)+back_to_back"] = ("thorough", dict(kind="shared", nm=2, ns=1, register=False, back_to_back=True, timeout=3, maxlat=4))
 
